@@ -79,6 +79,13 @@ class Sched:
         self.by_thread = {threading.current_thread(): self.main}
         self.locks = []
         self.names = collections.Counter()
+        # stalls: a thread is held up for a while at a switch point (descheduled by the OS, GC pause, swapped out):
+        # [{'kind': 'any'|'start', 'at': n, 'd': seconds}] -> at the n-th switch point of that kind the running thread sleeps d
+        self.stalls = {}
+        for st_ in schedule.get('stalls', []) or []:
+            self.stalls[(st_.get('kind', 'any'), int(st_['at']))] = float(st_['d'])
+        self.yield_counts = collections.Counter()
+        self.stall_log = []     # (virtual time, duration, thread name)
 
     # ---------------------------------------------------------------- core
     def me(self):
@@ -171,7 +178,15 @@ class Sched:
             e, me.raise_exc = me.raise_exc, None
             raise e
 
-    def yield_point(self):
+    def yield_point(self, kind='any'):
+        if self.stalls and not self.killing:
+            for k in ('any', kind) if kind != 'any' else ('any',):
+                self.yield_counts[k] += 1
+                d = self.stalls.get((k, self.yield_counts[k]))
+                if d:
+                    self.stall_log.append((self.now, d, self.me().name))
+                    self.block(None, d)
+                    return
         self._dispatch(self.me())
 
     def block(self, waiting_on, timeout, idle=False):
@@ -234,7 +249,7 @@ class Sched:
         th.run = run
         _orig_start(th)
         lt.state = READY
-        self.yield_point()
+        self.yield_point('start')
 
     def join_thread(self, th, timeout=None):
         lt = self.by_thread.get(th)
